@@ -14,8 +14,10 @@ import (
 	"math"
 	"os"
 	"os/exec"
+	"regexp"
 	"runtime"
 	"sort"
+	"strconv"
 	"strings"
 	"sync"
 
@@ -139,8 +141,27 @@ func inputPool(r *rng, n int) []input {
 			d, desc := mf.render(rr)
 			pool = append(pool, input{"t1", d, "independent font " + desc})
 		case 6:
-			d, _, _ := writeMetrics(randMetrics(newRng(r.next())))
-			pool = append(pool, input{"afm", d, "afm"})
+			rr := newRng(r.next())
+			m := randMetrics(rr)
+			d, _, _ := writeMetrics(m)
+			switch rr.intn(3) {
+			case 0:
+				// the layout of another writer: indentation, field order, CR LF
+				pool = append(pool, input{"afm", renderAFM(rr, m), "afm, independent layout"})
+			case 1:
+				// keys of the AFM format the library does not use itself: hexadecimal codes, vertical widths, comments
+				x := bytes.ReplaceAll(d, []byte("\nC "), []byte("\nCH <"))
+				x = regexp.MustCompile(`(?m)^CH <(-?\d+) ;`).ReplaceAllFunc(x, func(b []byte) []byte {
+					v, _ := strconv.Atoi(string(b[4 : len(b)-2]))
+					if v < 0 {
+						return []byte("C -1 ;")
+					}
+					return []byte(fmt.Sprintf("CH <%02X> ; W0X 5 ; VV 1 2 ;", v))
+				})
+				pool = append(pool, input{"afm", x, "afm with CH <hex> codes"})
+			default:
+				pool = append(pool, input{"afm", d, "afm"})
+			}
 		case 7:
 			var segs []pfbSeg
 			for k := r.intn(5); k > 0; k-- {
@@ -170,6 +191,9 @@ func inputPool(r *rng, n int) []input {
 			pool = append(pool, input{"ps", b.Bytes(), "eexec program"})
 		}
 	}
+	// always present: a small AFM file with hexadecimal codes (CH), vertical widths and a comment inside the metrics
+	pool = append(pool, input{"afm", []byte("StartFontMetrics 4.1\nFontName T\nFullName T\nStartCharMetrics 3\nCH <41> ; WX 600 ; N A ; B 0 0 500 700 ;\n" +
+		"CH <42> ; W0X 610 ; N B ; B 0 0 510 700 ; L i fi ;\nComment between\nC -1 ; WX 250 ; N space ; B 0 0 0 0 ;\nEndCharMetrics\nEndFontMetrics\n"), "afm with CH <hex> codes (every split)"})
 	return pool
 }
 
@@ -333,6 +357,29 @@ func suiteSched(o *suiteOut, r *rng, tier string, n int) {
 		}()
 	}
 	wg.Wait()
+	// AFM files whose last line has 2^k bytes and no line end, or 2^k - 1 bytes and a bare CR (buffers grow by
+	// doubling; a limit on the line length would sit at such a size): delivered whole, whole with EOF, and in 64 kB pieces
+	maxK := 24
+	if tier == "thorough" {
+		maxK = 26
+	}
+	for k := 16; k <= maxK; k++ {
+		for vi, tail := range []string{"", "\r"} {
+			head := "StartFontMetrics 4.1\nFontName T\nFullName T\n"
+			data := []byte(head + "Notice " + strings.Repeat("y", (1<<k)-len("Notice ")-len(tail)) + tail)
+			in := input{"afm", data, fmt.Sprintf("last line of 2^%d bytes", k)}
+			base := runInput("afm", bytes.NewReader(data))
+			idx := 100000 + 2*k + vi
+			schedCase(o, in, "all+eof", &chunkedReader{data: data, next: func(rem int) int { return rem }, eofWith: true}, base, idx)
+			schedCase(o, in, "64k", &chunkedReader{data: data, next: func(int) int { return 65536 }}, base, idx)
+			schedCase(o, in, "64k+eof", &chunkedReader{data: data, next: func(int) int { return 65536 }, eofWith: true}, base, idx)
+			schedCase(o, in, "not-seekable", notSeekable{bytes.NewReader(data)}, base, idx)
+			if base == "error" {
+				o.fail("C12", "an AFM file with a long last line is read", fmt.Sprintf("sched afm %d base", idx), "metrics", "error")
+			}
+			o.count("AFM files with a last line of 2^k bytes")
+		}
+	}
 	// a program fed in several consecutive Execute calls, split at token boundaries
 	ns := 300
 	if tier == "thorough" {
@@ -639,6 +686,16 @@ func suiteFaults(o *suiteOut, r *rng, tier string, n int) {
 			}
 			ws = append(ws, wr{"longglyph-pdf", func(w io.Writer) error { _, _, err := lg.WritePDF(w); return err }})
 		}
+		if i == 0 {
+			// a font whose encrypted section has more than 64 kB (and more than 128 kB): length fields above 16 bits,
+			// writers that work in blocks
+			bf, _, _ := fontFromCase([]string{"t1rt", fmt.Sprint(r.next() % 1000000007), "bigint", "pfb"})
+			for _, ff := range allFormats {
+				ff := ff
+				ws = append(ws, wr{"bigfont-" + formatName(ff), func(w io.Writer) error { return bf.Write(w, &type1.WriterOptions{Format: ff}) }})
+			}
+			ws = append(ws, wr{"bigfont-pdf", func(w io.Writer) error { _, _, err := bf.WritePDF(w); return err }})
+		}
 		ws = append(ws, wr{"font-pdf", func(w io.Writer) error { _, _, err := f.WritePDF(w); return err }})
 		ws = append(ws, wr{"afm", func(w io.Writer) error { return m.Write(w) }})
 		for _, w := range ws {
@@ -648,6 +705,9 @@ func suiteFaults(o *suiteOut, r *rng, tier string, n int) {
 				continue
 			}
 			for c := 0; c < dry.calls; c++ {
+				if strings.HasPrefix(w.name, "bigfont") && dry.calls > 60 && c >= 20 && c < dry.calls-20 && c%(dry.calls/20) != 0 {
+					continue // a big font through a writer that flushes line by line: the first and last 20 calls and 20 in between
+				}
 				fw := &faultWriter{failCall: c, shortAt: -1}
 				err := safeErr(func() error { return w.fn(fw) })
 				line := fmt.Sprintf("fault write %s %d call %d/%d", w.name, i, c, dry.calls)
@@ -766,7 +826,9 @@ func detOutputs(seed uint64, count int) []string {
 		}
 		// kerning pairs without effect (adjustment 0) at the front, in the middle and at the end of the list
 		if len(gnames) > 1 {
-			zero := func() *afm.KernPair { return &afm.KernPair{Left: gnames[i%len(gnames)], Right: gnames[(i+1)%len(gnames)], Adjust: 0} }
+			zero := func() *afm.KernPair {
+				return &afm.KernPair{Left: gnames[i%len(gnames)], Right: gnames[(i+1)%len(gnames)], Adjust: 0}
+			}
 			mid := len(m.Kern) / 2
 			kern := append([]*afm.KernPair{zero()}, m.Kern[:mid]...)
 			kern = append(append(kern, zero()), m.Kern[mid:]...)
@@ -824,6 +886,30 @@ func detOutputs(seed uint64, count int) []string {
 		fd2, _, _ := writeFont(f2, type1.FormatNoEExec)
 		fd1, _, _ := writeFont(f, type1.FormatNoEExec)
 		out = append(out, fmt.Sprintf("read2fonts%d:%x", i, sha256.Sum256([]byte(runInput("t1", bytes.NewReader(append(append([]byte{}, fd1...), fd2...)))))))
+		// a font the writers refuse (glyph names that are no PostScript names, several of them): what was written
+		// before the refusal, and the error that reports it, are the same every time
+		{
+			bf := randFont(newRng(r.next()), true)
+			for _, bad := range []string{"A B", "f(i)", "one/two", "x{y", "per%cent", ""} {
+				bf.Glyphs[bad] = &type1.Glyph{WidthX: 100}
+			}
+			for _, ff := range allFormats {
+				var b bytes.Buffer
+				err := safeErr(func() error { return bf.Write(&b, &type1.WriterOptions{Format: ff}) })
+				out = append(out, fmt.Sprintf("badnames%d-%s:%x|%v", i, formatName(ff), sha256.Sum256(b.Bytes()), err))
+			}
+			var b bytes.Buffer
+			var l1, l2 int
+			err := safeErr(func() (e error) { l1, l2, e = bf.WritePDF(&b); return })
+			out = append(out, fmt.Sprintf("badnames%d-pdf:%x|%d,%d|%v", i, sha256.Sum256(b.Bytes()), l1, l2, err))
+			bm := randMetrics(newRng(r.next()))
+			for _, bad := range []string{"A B", "semi;colon", ""} {
+				bm.Glyphs[bad] = &afm.GlyphInfo{WidthX: 100}
+			}
+			var mb bytes.Buffer
+			merr := safeErr(func() error { return bm.Write(&mb) })
+			out = append(out, fmt.Sprintf("badnames%d-afm:%x|%v", i, sha256.Sum256(mb.Bytes()), merr))
+		}
 		// ... and a file in which two different fonts carry the same /FontName, the second registered under another key
 		f3 := randFont(newRng(r.next()), true)
 		f3.FontInfo.FontName = f.FontInfo.FontName
@@ -1134,7 +1220,9 @@ func suiteIsolation(o *suiteOut, r *rng, tier string, n int) {
 			}},
 			{"Write into a failing writer", func() {
 				for _, ff := range allFormats {
-					safeErr(func() error { return of.Write(&faultWriter{failCall: 2, shortAt: -1}, &type1.WriterOptions{Format: ff}) })
+					safeErr(func() error {
+						return of.Write(&faultWriter{failCall: 2, shortAt: -1}, &type1.WriterOptions{Format: ff})
+					})
 				}
 			}},
 			{"AFM Write of other metrics, also into a failing writer", func() {
@@ -1142,7 +1230,12 @@ func suiteIsolation(o *suiteOut, r *rng, tier string, n int) {
 				safeErr(func() error { return om.Write(&faultWriter{failCall: 2, shortAt: -1}) })
 			}},
 			{"queries on another font and other metrics", func() {
-				of.GlyphList(); of.FontBBox(); of.FontBBoxPDF(); of.WidthsMapPDF(); om.GlyphList(); om.FontBBoxPDF()
+				of.GlyphList()
+				of.FontBBox()
+				of.FontBBoxPDF()
+				of.WidthsMapPDF()
+				om.GlyphList()
+				om.FontBBoxPDF()
 			}},
 			{"reads of damaged files", func() {
 				d, _, _ := writeFont(of, type1.FormatPFB)
